@@ -5,7 +5,7 @@
 From Coq Require Import List Bool Reals.
 From Coquelicot Require Import Coquelicot.
 From LF Require Import Base.Opcode Base.Num Eval.Deriv Eval.DerivSem Interval.IntervalModel.
-From LF Require Import Gen.DerivKernels_gen Gen.ArrayKernels_gen Gen.IntervalDispatch_gen.
+From LF Require Import Gen.DerivKernels_gen Gen.ArrayKernels_gen Gen.IntervalDispatch_gen Eval.ModKernel.
 
 Section Deriv.
   Context {num : Type} (O : ops num).
@@ -27,14 +27,20 @@ Section Interval.
 End Interval.
 
 Local Open Scope R_scope.
-(* ArrayEvaluator::operator() read over the reals is the semantic instance [vk] of C01 / C06 *)
-Lemma vkern_gen_eq op a b : vkern_gen op a b = vk op a b.
+(* ArrayEvaluator::operator() read over the reals is the semantic instance [vk] of C01 / C06.  The OP_MOD arm is
+   the C++ loop body (fabs, xor of signs, -ceil / floor, two clamps): it is the floor modulo [Rmod] for a non-zero
+   divisor (Eval/ModKernel.v); for b = 0 the C++ computes NaN and nothing is claimed. *)
+Lemma vkern_gen_eq op a b : (op = OP_MOD -> b <> 0) -> vkern_gen op a b = vk op a b.
 Proof.
-  unfold vk. destruct op; cbn; try reflexivity.
+  intros Hb.
+  assert (M : op = OP_MOD -> vkern_gen op a b = vk op a b).
+  { intros ->. rewrite (mod_kernel_is_floor_mod a b (Hb eq_refl)). reflexivity. }
+  unfold vk. destruct op; try (apply M; reflexivity); clear M Hb; cbn; try reflexivity.
   unfold Rdiv. rewrite Rmult_1_l. reflexivity.
 Qed.
 
-(* hence the chain-rule theorem holds for the kernels as the source states them *)
+(* hence the chain-rule theorem holds for the kernels as the source states them ([smooth_at OP_MOD] contains
+   b t <> 0, and the divisor of mod is locally constant: [const_b]) *)
 Theorem kernel_correct_source (op : opcode) (a b : R -> R) (t ad bd : R) :
   is_derive a t ad -> is_derive b t bd ->
   smooth_at op (a t) (b t) ->
@@ -43,8 +49,15 @@ Theorem kernel_correct_source (op : opcode) (a b : R -> R) (t ad bd : R) :
     (pr1 (dkern_gen RD false op (a t) (b t) (vkern_gen op (a t) (b t)) (ad, ad, ad) (bd, bd, bd))).
 Proof.
   intros Ha Hb Hs Hc.
+  assert (Hbt : op = OP_MOD -> b t <> 0).
+  { intros ->. exact (proj1 Hs). }
+  assert (Hloc : locally t (fun s => op = OP_MOD -> b s <> 0)).
+  { destruct (opcode_eq_dec op OP_MOD) as [E|E].
+    - assert (Hl : locally t (fun s => b s = b t)) by (apply Hc; rewrite E; exact I).
+      generalize Hl. apply filter_imp. intros s -> . exact Hbt.
+    - apply filter_forall. intros s E'. contradiction. }
   rewrite dkern_gen_eq, dkern_pr1. cbn [pr1 fst].
-  rewrite vkern_gen_eq.
-  eapply is_derive_ext; [|apply (kernel_correct op a b t ad bd Ha Hb Hs Hc)].
-  intros s. symmetry. apply vkern_gen_eq.
+  rewrite (vkern_gen_eq op (a t) (b t) Hbt).
+  eapply is_derive_ext_loc; [|apply (kernel_correct op a b t ad bd Ha Hb Hs Hc)].
+  generalize Hloc. apply filter_imp. intros s Hs'. symmetry. apply vkern_gen_eq, Hs'.
 Qed.
